@@ -158,3 +158,24 @@ Theorem TIE_genir_input_safe_sound_T : forall T name ps rt body,
     end.
 Proof. exact proofs.GenGenIR_sound.input_safe_sound_T. Qed.
 Print Assumptions TIE_genir_input_safe_sound_T.
+
+(** (b) FINAL: for EVERY definition, graph, capacity and kernel kind -- under the two boolean hypotheses [names_ok d g]
+    (no identifier collision with the explicit taint set T1 d; false on K-C08-3's witness, true on ordinary problems:
+    names_ok_k_c08_3, names_ok_ordinary) and [graph_outputs_of d g] (discharged for library graphs by
+    TIE_genir_library_graphs_outputs) -- the generated kernel never writes an input and returns with the output clean. *)
+Theorem TIE_genir_inputs_untouched : forall cap d g k f,
+  names_ok d g = true -> graph_outputs_of d g = true -> generate_ir cap d g k = Some f ->
+  forall fuel args st, proofs.Certs2Input.out_clean st args ->
+    match spec.IRSem.call fuel f args st with
+    | spec.IRSem.Fail x => x <> spec.Num.EWriteInput
+    | spec.IRSem.Returned st' _ _ => proofs.Certs2Input.out_clean st' args
+    | _ => True
+    end.
+Proof. exact gen_inputs_untouched. Qed.
+Print Assumptions TIE_genir_inputs_untouched.
+
+Theorem TIE_genir_safe_names_ok : forall T cap d g k f,
+  names_ok_T T d = true -> graph_outputs_of d g = true ->
+  generate_ir cap d g k = Some f -> gen_input_safe_semantic T f.
+Proof. exact gen_safe_names_ok. Qed.
+Print Assumptions TIE_genir_safe_names_ok.
